@@ -414,7 +414,7 @@ def deleteObjectsPlan (e : Env) (b : Bytes) : List Bytes → List Touch → List
   | k :: rest, acc, paths =>
     withPath (getObjectPath e b k) acc fun p => deleteObjectsPlan e b rest (acc ++ [rd p]) (paths ++ [p])
 
-/-- the validation loop of `complete_multipart_upload` (0932917: before anything is changed): part numbers `1, 2, 3, …`
+/-- the validation loop of `complete_multipart_upload` (0096ef4: before anything is changed): part numbers `1, 2, 3, …`
     ("invalid part order" otherwise), every part file is probed; the touches so far and the part paths, or the plan that
     ended there -/
 def completeCheck (e : Env) (u : Bytes) : List Int → Int → List Touch → List Bytes → Except Plan (List Touch × List Bytes)
@@ -497,7 +497,7 @@ def plan (e : Env) (enc : Bytes → Bytes) : Op → Plan
     if part < 1 ∨ part > 10000 then .fail [] .invalidArgument
     else if !hasBody then .fail [] .incompleteBody
     else match parseUuid uploadId with
-      | none => .fail [] .noSuchUpload           -- 38336b0: an id that is no UUID names no upload
+      | none => .fail [] .noSuchUpload           -- 4609ab3: an id that is no UUID names no upload
       | some u =>
         verifyUpload e u [] fun t1 =>
         withPath (uploadPartPath e u part) t1 fun pp =>
@@ -516,7 +516,7 @@ def plan (e : Env) (enc : Bytes → Bytes) : Op → Plan
       let t2 := t1 ++ [rd src] ++ [rd sbp]
       withPath (tmpPath e counter) t2 fun tmp => .ok (t2 ++ fileWrite tmp pp (parentPath pp))
   | .listParts _ _ uploadId =>
-    -- 38336b0: the id is parsed and the upload record probed (`NoSuchUpload`) before the root is read
+    -- 4609ab3: the id is parsed and the upload record probed (`NoSuchUpload`) before the root is read
     match parseUuid uploadId with
     | none => .fail [] .noSuchUpload
     | some u =>
@@ -527,7 +527,7 @@ def plan (e : Env) (enc : Bytes → Bytes) : Op → Plan
     | none => .fail [] .invalidPart
     | some parts =>
       match parseUuid uploadId with
-      | none => .fail [] .noSuchUpload           -- 38336b0: an id that is no UUID names no upload
+      | none => .fail [] .noSuchUpload           -- 4609ab3: an id that is no UUID names no upload
       | some u =>
         verifyUpload e u [] fun t1 =>
         withPath (getObjectPath e b k) t1 fun p =>
@@ -539,7 +539,7 @@ def plan (e : Env) (enc : Bytes → Bytes) : Op → Plan
           withPath (tmpPath e counter) t2 fun tmp =>
           let t3 := t2 ++ [cr tmp, wr tmp] ++ pps.map rd ++ [rm tmp, ⟨.create, .dirChain (parentPath p)⟩, cr p, wr p]
           -- … then the upload's metadata becomes the object's (without any, the metadata file of the replaced object is
-          -- removed: cf67827), the checksum record is reset (cf67827), the part files and the upload record are removed,
+          -- removed: 47e9b00), the checksum record is reset (47e9b00), the part files and the upload record are removed,
           -- and the object is read back for the ETag
           withPath (metadataPath e enc b k (some u)) t3 fun um =>
           let t4 := t3 ++ [rd um]
